@@ -169,6 +169,13 @@ def run_case(ck, case, reqs, pending):
     times = np.cumsum(rng.uniform(0.3, 2.5, size=nfr))
     t_other = t_test - 1 if where == "last" else t_test + 1                  # the frame the finite difference at t_test uses
     times = times * (bound / vmax) / float(abs(times[t_other] - times[t_test]))   # the tested step moves the fastest junction by exactly the bound
+    # the origin of the clock is arbitrary: in half of the cases the tested frame or its partner carries the time stamp exactly 0
+    # (earlier frames then have negative stamps); only differences of stamps may matter
+    origin = int(case["seed"]) % 4
+    if origin == 1:
+        times = times - times[t_test]; ck.count("tested_frame_at_time_zero")
+    elif origin == 2:
+        times = times - times[t_other]; ck.count("partner_frame_at_time_zero")
     frames_bm = []
     base = sc.bm
     for t in range(nfr):
